@@ -3,15 +3,20 @@
    _mldivide.c / _mrdivide.c / _minverse.c and its partial version LV.Lin.LuPartial.lu_c (what the C
    code returns when a pivot is exactly zero: 0 or NaN), both tied to the code by checks/C19.py on
    every run (row-scale variant read from the C text; zero pivots at every column position).
-   Least-squares part: SPECIFICATION LEVEL only.  No model of the Householder code
-   (_vnacommon_qrd / _qr / _qrsolve / _qrsolve2) exists; the theorems are about the normal equations
-   and about the executable oracle LsLu.ls_lu the C routines are compared with numerically.
+   Least-squares part: the c19_ls_* theorems are SPECIFICATION LEVEL (normal equations, the executable
+   oracle LsLu.ls_lu the C routines are compared with numerically).  The c19_qr_* theorems at the end are
+   about the model LV.Lin.QrModel of the Householder code as coded (_vnacommon_qrd, the rank rule and the
+   solve of _vnacommon_qrsolve, the R matrix of _vnacommon_qr), over an abstract field with involution;
+   sqrt() and cexp(I carg()) are parameters whose laws enter as the per-run premise [run_laws]
+   (checked by computation at Q[i]: QrQI.qq_run_lawsb); forming Q explicitly (_vnacommon_qr) and
+   _vnacommon_qrsolve2 are not modelled.
    Exact field arithmetic stands for binary64: backward stability in binary64, numerical rank
    decisions and the behaviour of the order premises under NaN metrics are NOT proved (named in the
    manifest and in docs/design_C19.md). *)
 Require Import List Arith Bool.
 Require Import QArith Qcanon.
 Require Import LV.Base.CField LV.Base.QcI LV.Lin.MatL LV.Lin.LuModel LV.Lin.LuPartial LV.Lin.LuQI LV.Lin.LsSpec LV.Lin.LsLu LV.Lin.LuQI2.
+Require Import LV.Lin.QrModel LV.Lin.QrAlg LV.Lin.QrProofs LV.Lin.QrTheorems LV.Lin.QrQI LV.Lin.QrQIProofs.
 Require Import LV.Lin.LuGen LV.Lin.LuPivot LV.Lin.LuDet3 LV.Lin.LuProofs LV.Lin.LuNonsing LV.Lin.LuNonsingQI LV.Lin.LsProofs LV.Lin.LsLuProofs.
 Local Open Scope nat_scope.
 
@@ -441,3 +446,92 @@ Theorem c19_ls_oracles_agree m n o (a b x y : mat QIF) :
   forall t k, t < n -> k < o -> mget QIF x t k = mget QIF y t k.
 Proof. exact (ls_lu_agrees_with_ls_solve m n o a b x y). Qed.
 Print Assumptions c19_ls_oracles_agree.
+
+(* ======================= Householder QR as coded (LV.Lin.QrModel) =======================
+   K: a field with conjugation; [qr_field_laws K isz]: cj is an involutive ring morphism, 2 <> 0, a sum
+   of squared moduli vanishes only if every term does (K is "formally real" over its squared moduli),
+   [isz] decides x = 0.  Met by Q[i]: c19_qr_field_laws_QI.
+   [run_laws K nrm phase isz m n A n]: on the run of the sweep on A, at every diagonal k reached,
+     nrm s * nrm s = s, cj (nrm s) = nrm s      for s = the two sums of squared moduli the C code takes sqrt() of,
+     phase x * cj (phase x) = 1,  cj (phase x) * x = nrm (x * cj x),  cj (nrm (x * cj x)) = nrm (x * cj x)
+                                                  for x = A(k,k), phase = cexp(I carg(.)).
+   They are properties of the real sqrt() and cexp(I carg()) (trusted base); at Q[i] they are checked by
+   computation on each run (QrQI.qq_run_lawsb, c19_qr_rank_iff_full_col_rank_QI). *)
+
+Theorem c19_qr_field_laws_QI : qr_field_laws QIF qi_isz0.
+Proof. exact qif_field_laws. Qed.
+Print Assumptions c19_qr_field_laws_QI.
+
+(* (a) each Householder reflection I - 2 v v^H with v^H v = 1 is unitary (it preserves the Hermitian inner
+   product of every pair of vectors) and an involution; every m, every v *)
+Theorem c19_qr_reflection_unitary (K : CField) (isz : K -> bool) : qr_field_laws K isz ->
+  forall m (v : nat -> K), ip K m v v = c1 ->
+  (forall x y, ip K m (Hf K m v x) (Hf K m v y) = ip K m x y) /\
+  (forall x i, Hf K m v (Hf K m v x) i = x i).
+Proof. exact (t_reflection_unitary K isz). Qed.
+Print Assumptions c19_qr_reflection_unitary.
+
+(* (c) every m >= n, every m x n matrix: the rank the code reports (number of non-zero diagonal elements d[i]
+   among the finite ones) is n exactly when A has a trivial kernel *)
+Theorem c19_qr_rank_full_iff_trivial_kernel (K : CField) (nrm phase : K -> K) (isz : K -> bool) :
+  qr_field_laws K isz -> forall m n (A : mat K), wf m n A -> n <= m ->
+  run_laws K nrm phase isz m n A n ->
+  (qr_rank K isz (qrd K nrm phase isz m n A) = n <-> ker_trivial K m n A).
+Proof. exact (t_rank_full_iff_trivial_kernel K nrm phase isz). Qed.
+Print Assumptions c19_qr_rank_full_iff_trivial_kernel.
+
+(* what the sweep returns, every m >= n: EITHER the kernel is trivial, nothing non-finite is computed, every
+   d[i] is non-zero and the rank is n, OR the sweep meets, at the first column k that depends on the previous
+   ones, a column that is exactly zero from the diagonal down: d[k] = 0 is stored, the C code then divides
+   0/0 (NaN; qr_nan = Some k), the rank reported is k < n, and an explicit kernel vector with x_k = 1 exists *)
+Theorem c19_qr_outcome (K : CField) (nrm phase : K -> K) (isz : K -> bool) :
+  qr_field_laws K isz -> forall m n (A : mat K), wf m n A -> n <= m ->
+  run_laws K nrm phase isz m n A n ->
+  let st := qrd K nrm phase isz m n A in
+  (ker_trivial K m n A /\ qr_nan K st = None /\ qr_rank K isz st = n /\
+   forall t, t < n -> nth t (qr_d K st) c0 <> c0) \/
+  (exists k x, k < n /\ qr_nan K st = Some k /\ qr_rank K isz st = k /\
+               nth k (qr_d K st) c1 = c0 /\ in_ker K m n A x /\ x k = c1).
+Proof. exact (t_outcome K nrm phase isz). Qed.
+Print Assumptions c19_qr_outcome.
+
+(* (b) after the sweep on a matrix of full column rank: the n stored reflection vectors are unit vectors, the
+   composition T = H_(n-1) ... H_0 preserves inner products, R (d on the diagonal, the array above it) is
+   T applied to the columns of A, and R is zero below the diagonal: the implicit form of Q R = A *)
+Theorem c19_qr_sweep_factorisation (K : CField) (nrm phase : K -> K) (isz : K -> bool) :
+  qr_field_laws K isz -> forall m n (A : mat K), wf m n A -> n <= m ->
+  run_laws K nrm phase isz m n A n -> ker_trivial K m n A ->
+  let st := qrd K nrm phase isz m n A in
+  (forall t, t < n -> ip K m (vst K (qr_a K st) t) (vst K (qr_a K st) t) = c1) /\
+  (forall x y, ip K m (Tf K m (qr_a K st) n x) (Tf K m (qr_a K st) n y) = ip K m x y) /\
+  (forall i j, i < m -> j < n ->
+     mget K (qr_R K m n st) i j = Tf K m (qr_a K st) n (fun r => mget K A r j) i) /\
+  (forall i j, i < m -> j < n -> j < i -> mget K (qr_R K m n st) i j = c0).
+Proof. exact (t_sweep_factorisation K nrm phase isz). Qed.
+Print Assumptions c19_qr_sweep_factorisation.
+
+(* (d) PARTIAL.  Proved (every m >= n, full column rank): if c = H_(n-1) ... H_0 b and x solves the
+   triangular system R x = c (rows < n), then x satisfies the normal equations A^H A x = A^H b (hence, by
+   c19_ls_minimises_spec_level, minimises the residual).  MISSING: that the list-level loops of the model
+   (QrModel.qr_reflect_all, QrModel.qr_back) compute exactly this c and this x, and the restatement
+   with LsProofs.normal_eq; both are covered by the white-box tie (transformed B and X compared with the C
+   code) and by the comparison of _vnacommon_qrsolve with the oracle LsLu.ls_lu, not by a theorem. *)
+Theorem c19_qrsolve_is_ls_solution_partial (K : CField) (nrm phase : K -> K) (isz : K -> bool) :
+  qr_field_laws K isz -> forall m n (A : mat K) (b x : nat -> K), wf m n A -> n <= m ->
+  run_laws K nrm phase isz m n A n -> ker_trivial K m n A ->
+  let st := qrd K nrm phase isz m n A in
+  (forall i, i < n -> sumf n (fun t => cmul (mget K (qr_R K m n st) i t) (x t)) = Tf K m (qr_a K st) n b i) ->
+  forall j, j < n ->
+    sumf n (fun t => cmul (sumf m (fun i => cmul (cj (mget K A i j)) (mget K A i t))) (x t)) =
+    sumf m (fun i => cmul (cj (mget K A i j)) (b i)).
+Proof. exact (t_ls_normal_equations_partial K nrm phase isz). Qed.
+Print Assumptions c19_qrsolve_is_ls_solution_partial.
+
+(* (c) at Q[i], no premise left but the computed law check of the run: rank n <-> full column rank, the
+   notion of c19_ls_oracle_answers_iff_full_rank.  Non-vacuity: QrQIProofs.ex_qr_a_laws / ex_qr_a_run /
+   ex_qr_a_full_rank (3 x 2, rank 2) and ex_qr_def_laws / ex_qr_def_run / ex_qr_def_not_full_rank (second
+   column = 2 x first: stop at diagonal 1, rank 1, solution None). *)
+Theorem c19_qr_rank_iff_full_col_rank_QI m n (a : mat QIF) : wf m n a -> n <= m ->
+  qq_run_lawsb m n a = true -> (qq_rank (qq_qrd m n a) = n <-> full_col_rank m n a).
+Proof. exact (qq_rank_full_iff_full_col_rank m n a). Qed.
+Print Assumptions c19_qr_rank_iff_full_col_rank_QI.
